@@ -142,3 +142,6 @@ func RunFiber(h fiber.Handler, method string, r Req) Resp {
 	h(c)
 	return Resp{Status: c.StatusCode, HasBody: c.HasBody, Body: c.RespBody}
 }
+
+// Route is one registered (verb, engine path) pair.
+type Route struct{ Method, Path string }
